@@ -12,6 +12,8 @@
 #include <Bpp/App/ApplicationTools.h>
 #include "symrt.h"
 #include <memory>
+#include <cmath>
+#include <vector>
 using namespace bpp;
 using namespace std;
 #ifndef EVALMAX
@@ -28,7 +30,14 @@ public:
   double X() const { return getParameterValue("x"); }
   double getValue() const override { if (++evals > budget) __sym_prune();      // bounded exploration: runs needing more evaluations are outside the bound
     if (boxed) SYM_ASSERT(X() >= lo && X() <= hi, "objective evaluated outside its parameter's constraint");
-    double v = __sym_apply("f", X()); SYM_ASSUME(v > -1e6 && v < 1e6); return v; }
+    double v = __sym_apply("f", X()); SYM_ASSUME(v > -1e6 && v < 1e6);
+#ifdef SEPARATE
+    // generic-position variant: objective values at different points differ by more than 1e-3 and are of moderate size, so that a counterexample survives the
+    // rounding of the native replay (the unrestricted variant of the same job covers ties)
+    SYM_ASSUME(v > -100 && v < 100); bool seen = false; for (auto& pr : hist) if (pr.first == X()) seen = true; if (!seen) { for (auto& pr : hist) SYM_ASSUME(fabs(v - pr.second) > 1e-3); hist.push_back({X(), v}); }
+#endif
+    return v; }
+  mutable std::vector<std::pair<double, double>> hist;
   void enableFirstOrderDerivatives(bool) override {} bool enableFirstOrderDerivatives() const override { return true; }
   void enableSecondOrderDerivatives(bool) override {} bool enableSecondOrderDerivatives() const override { return true; }
   double getFirstOrderDerivative(const string&) const override { double v = __sym_apply("df", X()); SYM_ASSUME(v > -1e6 && v < 1e6); return v; }
